@@ -16,18 +16,25 @@ COLSETS = [["id", "start", "end"], ["id", "effort", "start"], ["id", "start", "e
            ["id", "cost", "effort"], ["id", "start", "end", "cost"]]
 
 
-def report_defs(rng, k):
+def report_defs(rng, k, scen_ids=()):
+    """k task report definitions; with scenarios, a report may name the one it shows (rows, dates and money columns are
+    then those of that scenario).  Returns (text, {report id: scenario id or None})."""
     out = []
+    which = {}
     for i in range(k):
         cols = rng.choice(COLSETS)
         lines = ['taskreport rep%d "rep%d" {' % (i, i), "  formats json, csv", "  columns " + ", ".join(cols)]
+        which["rep%d" % i] = None
+        if scen_ids and rng.random() < 0.7:
+            which["rep%d" % i] = rng.choice(list(scen_ids))
+            lines.append("  scenarios %s" % which["rep%d" % i])
         if rng.random() < 0.8:
             lines.append('  timeformat "%s"' % rng.choice(FORMATS))
         if rng.random() < 0.4:
             lines.append("  leaftasksonly true")
         lines.append("}")
         out.append("\n".join(lines))
-    return "\n".join(out) + "\n"
+    return "\n".join(out) + "\n", which
 
 
 def check(prop, tier, replay=None):
@@ -47,8 +54,16 @@ def check(prop, tier, replay=None):
                     r.rate = rng.choice([10, 55.5, 120, 33.33])
             if rng.random() < 0.5:
                 p = gen.renamed(p, rng, reuse_across_parents=True)      # same leaf id under different containers
-            p.extra = report_defs(rng, 3)
-            jobs.append({"id": "C18-" + pid, "text": p.render()})
+            scen_ids = ()
+            if p.scenarios is None and rng.random() < 0.35:
+                # a second (nested) scenario in which some tasks need a different effort: booked time, dates and money differ
+                p.scenarios = [("plan", [("delayed", [])])]
+                scen_ids = ("plan", "delayed")
+                for t in p.tasks:
+                    if not t.kids and t.effort and rng.random() < 0.6:
+                        t.scen["delayed"] = {"effort": t.effort * rng.choice([2, 3]) if rng.random() < 0.7 else max(p.G, t.effort // 2 // p.G * p.G)}
+            p.extra, which = report_defs(rng, 3, scen_ids)
+            jobs.append({"id": "C18-" + pid, "text": p.render(), "report_scenario": which})
     if replay:
         jobs = [json.load(open(replay))]
     with scratch_build() as scr:
